@@ -290,6 +290,7 @@ class C14(vlib.Driver):
                             B = 1 if single else rng.choice([2, 3])
                             d = len(self.BOXES[bname])
                             cases.append({"fam": "ppo_box", "box": bname, "squash": squash, "training": training, "single": single,
+                                          "obs": ["dict", "disc", "vec", "tuple"][(int(training) + 2 * int(single)) % 4] if bname == "asym" else "vec",
                                           "B": B, "loc": [rng.choice([-6.0, -0.5, 0.0, 0.25, 3.0]) for _ in range(d)],
                                           "z": [[rng.choice([-2.0, -0.5, 0.0, 1.0, 4.0]) for _ in range(d)] for _ in range(B)],
                                           "oseed": rng.randrange(10 ** 6)})
@@ -300,6 +301,7 @@ class C14(vlib.Driver):
                 for k in range(2 if tier == "quick" else 4):
                     lg = self.logit_patterns(rows[0], rng)[k % 4]
                     cases.append({"fam": "ppo_disc", "space": "discrete", "nvec": [n], "logits": lg, "masks": rows, "single": False,
+                                  "obs": ["vec", "dict", "disc"][(n + k) % 3],
                                   "training": bool(k % 2), "seeds": S, "oseed": rng.randrange(10 ** 6),
                                   "maskfmt": "object" if k == 1 else "array"})
             m = masks[rng.randrange(len(masks))]
@@ -775,15 +777,17 @@ class C14(vlib.Driver):
             box = self.BOXES[bname]
             B, d = case["B"], len(box)
 
+            okind = case.get("obs", "vec")
+
             def build():
-                cfg = small_cfg()
+                cfg = small_cfg(okind)
                 if sq:
                     cfg["squash_output"] = True
-                return PPO(obs_space_of("vec"), np_box(box), net_config=cfg, share_encoders=False)
-            ag = self.agent(("ppo_box", bname, sq), build)
+                return PPO(obs_space_of(okind), np_box(box), net_config=cfg, share_encoders=False)
+            ag = self.agent(("ppo_box", bname, sq, okind), build)
             pin(ag.actor, case["loc"])
             ag.set_training_mode(case["training"])
-            obs = make_obs("vec", B, case["single"], random.Random(case["oseed"]))
+            obs = make_obs(okind, B, case["single"], random.Random(case["oseed"]))
             rec = []
             with self.normal_sample_script(case["z"], rec):
                 out, err = self.call(lambda: ag.get_action(obs))
@@ -798,12 +802,13 @@ class C14(vlib.Driver):
         kind, nvec = case["space"], case["nvec"]
         sp = {"discrete": lambda: spaces.Discrete(nvec[0]), "multidiscrete": lambda: spaces.MultiDiscrete(nvec),
               "multibinary": lambda: spaces.MultiBinary(nvec[0])}[kind]()
-        ag = self.agent(("ppo_disc", kind, tuple(nvec)),
-                        lambda: PPO(obs_space_of("vec"), sp, net_config=small_cfg(), share_encoders=False))
+        okind = case.get("obs", "vec")
+        ag = self.agent(("ppo_disc", kind, tuple(nvec), okind),
+                        lambda: PPO(obs_space_of(okind), sp, net_config=small_cfg(okind), share_encoders=False))
         pin(ag.actor, case["logits"])
         ag.set_training_mode(case["training"])
         B = len(case["masks"]) if case["masks"] is not None else case["B"]
-        obs = make_obs("vec", B, case["single"], random.Random(case["oseed"]))
+        obs = make_obs(okind, B, case["single"], random.Random(case["oseed"]))
         mask = mask_array(case["masks"], case["single"], case.get("maskfmt"))
         acts, support, err = [], None, None
         for sd in range(case["seeds"]):
